@@ -224,6 +224,9 @@ use rt::Rt;
 
 mod sim;
 pub use sim::Sim;
+#[cfg(feature = "verif-hooks")]
+#[doc(hidden)]
+pub use sim::VerifHostTableCounts;
 
 mod top;
 use top::Topology;
